@@ -40,6 +40,14 @@ CHECKS = {
    text="K8sStore.tla models the API-backed store in both modes (write-through / periodic with a two-phase background sync), API outcomes, graceful stop, crash between any two steps and a new leader's load, with the durability invariants (acknowledged=>persisted, deleted stays deleted, stop flushes, load exact, nothing of a foreign shard); TLC checks them on the repaired design (and refutes the pinned variant) and simulates histories; they are replayed on the REAL store against the fake clientset behind a gate decorator that injects not-found/conflict/transient outcomes, holds the background sync at its first write and kills the store before an operation or at its 1st/2nd API call; acknowledgements and the API content after every step are trace-validated by TLC.",
    note="Write-through histories run on virtual time; periodic-mode histories in real time (mutex contention is invisible to synctest); driver operations are sequential, the concurrent actor is the store's own sync.",
    technique="TLC invariants on the store model + simulated fault/crash histories replayed through a gated fake API + TLC trace validation"),
+ "C10": dict(cat="model_checking", design="4/C10",
+   text="Names.tla models the control plane (admission-valid create/update/delete), the informer queue with requeues and the worker's name-table logic; TLC explores it (convergence of the name table, no capture of another cluster's name) and simulates histories; they are replayed on the REAL controller (fake clientset -> informer -> syncqueue -> syncUpstreamCluster, virtual time) and after every operation every host spelling (upper/lower case, with/without port) is resolved through the real request filters and the real SNI callback; TLC validates each observation: host resolves to the cluster whose latest object claims it and to nothing otherwise, and the certificate / client-CA / verify options selected are that cluster's.",
+   note="Admission-valid, settled histories (worker catches up after every operation); 3 clusters, 2 aliases, random spellings; TLS judged on the tls.Config returned by the callback, not by handshakes.",
+   technique="TLC exploration of the name-table model + simulated histories replayed into the real controller + TLC trace validation"),
+ "C11": dict(cat="model_checking", design="4/C11",
+   text="Reload.tla models per-field application of object versions (the feature-gate sub-syncer is the one with history; pinned variant refuted, repaired variant verified by TLC: effective = Fresh(latest)); TLC-simulated version histories (one field added/changed/removed/restored per version, delete/re-create) and name histories issued back-to-back (lagging worker, requeues) are replayed on the REAL controller; at every observation the effective configuration projected through public accessors is compared by TLC with the projection of a FRESH real gateway that was given only the latest objects.",
+   note="Differential oracle real-vs-real; client connection settings excluded; endpoints never become healthy in this harness. One open known finding (superseded version applied by a lagging/requeued worker).",
+   technique="TLC invariant on the reload model + simulated histories replayed into the real controller + TLC trace validation of a fresh-gateway differential"),
 }
 
 NOT_YET = {}
